@@ -13,7 +13,9 @@ COQ_CASE_TYPE = "pdocfg_case"
 RULE = ("cases = save_read (attributes + add_variable calls on a fresh RemoteNode map, save() against the Python strict "
         "device from a random prior register state, read() by a second fresh node), read (arbitrary device registers), "
         "from_od (read(from_od=True) of DCF values / defaults, then save and read back), load (RemoteNode.load_configuration "
-        "with an RPDO and a TPDO in the dictionary), indices (PdoMaps layout); "
+        "with an RPDO and a TPDO in the dictionary), history (several node objects and maps on one Network: set / map / "
+        "save / read / device reset, the k-th download or one upload aborted, colliding COB-IDs; after every operation: "
+        "outcome, log, attributes, map layout, subscription table of the whole network), indices (PdoMaps layout); "
         "COB-IDs over 11- and 29-bit ranges incl. ends, all flag combinations, transmission types 0..255, optional "
         "sub-entries present/absent, 0..8 mapped objects, RPDO/TPDO, PDO numbers 1,2,3,4,5,512 and random, devices that "
         "start enabled with another mapping, strict / read-only-count / lenient device; non-trivial = a save or read "
@@ -147,6 +149,74 @@ def save_and_readback(c, dev, net, pm):
     return [sres, log, regs, guarded(do_read)]
 
 
+def _layout(pm):
+    return [len(pm.data), pm.length, [v.offset for v in pm.map]]
+
+
+def run_history(c):
+    """several node objects on ONE Network, each behind its own device; per operation:
+    [outcome, device log of the operation (or True for a read), attributes, layout, subscription table]"""
+    import canopen
+    from canopen.pdo.base import PdoMap
+    from ref.strict_pdo_device import StrictPdoDevice, attach
+
+    class Net(canopen.Network):
+        def send_message(self, *a, **k):
+            pass
+
+    net = Net()
+    numbers = c["od"]["numbers"]
+    odc = dict(c, n=numbers[0], od=dict(c["od"], others=numbers[1:]))
+    nodes, devs = [], []
+    for nd in c["nodes"]:
+        node = canopen.RemoteNode(nd["id"], build_od(odc))
+        net.add_node(node)
+        dev = StrictPdoDevice({(i, s): v for i, s, v in nd["regs"]}, [tuple(o) for o in c["dev"]["objs"]], c["dev"]["mode"])
+        attach(node, dev)
+        nodes.append(node)
+        devs.append(dev)
+    maps = [(nodes[ni].tpdo if tp else nodes[ni].rpdo)[n] for ni, tp, n in c["keys"]]
+
+    def table():
+        rows = [sorted(cid for cid, cbs in net.subscribers.items() if pm.on_message in cbs) for pm in maps]
+        infra = sum(1 for cbs in net.subscribers.values() for cb in cbs
+                    if not isinstance(getattr(cb, "__self__", None), PdoMap))
+        return rows + [infra]
+
+    out = []
+    for op in c["ops"]:
+        kind = op[0]
+        if kind == "reset":
+            devs[op[1]].reset({(i, s): v for i, s, v in op[2]})
+            out.append([None, [], None, None, table()])
+            continue
+        pm = maps[op[1]]
+        dev = devs[c["keys"][op[1]][0]]
+        if kind == "set":
+            u = op[2]
+            pm.cob_id, pm.enabled, pm.rtr_allowed, pm.trans_type = u["cob"], bool(u["enabled"]), bool(u["rtr"]), u["tt"]
+            pm.inhibit_time, pm.event_timer, pm.sync_start_value = u["inhibit"], u["event"], u["sync"]
+            res, second = None, []
+        elif kind == "map":
+            pm.clear()
+            for i, s, l in op[2]:
+                pm.add_variable(i, s, l)
+            res, second = None, []
+        elif kind == "save":
+            start = dev.begin_op(fail_download_at=op[2])
+            res = guarded(pm.save)
+            second = [[i, s, v, a] for i, s, v, a in dev.log[start:]]
+        elif kind == "read":
+            dev.begin_op(fail_upload_reg=(op[2], op[3]) if (op[2], op[3]) != (0, 0) else None)
+            res = guarded(pm.read)
+            second = True
+        else:
+            raise ValueError(kind)
+        dev.begin_op()
+        out.append([res, second, obs_cfg(net, pm), _layout(pm), table()])
+    return out
+
+
 def impl(c):
     logging.disable(logging.CRITICAL)
     k = c["kind"]
@@ -177,6 +247,8 @@ def impl(c):
             first = obs_cfg(net, pm)
             return [first, save_and_readback(c, dev, net, pm)]
         return guarded(f)
+    if k == "history":
+        return guarded(run_history, c)
     if k == "load":
         def f():
             dev = make_dev(c)
@@ -374,8 +446,117 @@ def check_read(u, mapping, o, what):
     return None
 
 
+def layout_failure(cfgobs, layout, what):
+    """after every operation, failed or not: length = sum of the mapped lengths, offsets = prefix sums, and a map
+    with mapped bits sits on a frame of ceil(bits / 8) bytes"""
+    dlen, length, offs = layout
+    lens = [e[2] for e in cfgobs[7]]
+    if len(offs) != len(lens) or length != sum(lens):
+        return f"{what}: PdoMap.length {length}, mapped lengths {lens}, offsets {offs}"
+    pos = 0
+    for o, l in zip(offs, lens):
+        if o is None and l == 0:
+            continue                # dummy entry of the fixed-count workaround
+        if o != pos:
+            return f"{what}: offsets {offs} are not the prefix sums of {lens}"
+        pos += l
+    if length > 0 and dlen != (length + 7) // 8:
+        return f"{what}: frame of {dlen} bytes for {length} mapped bits (offsets {offs}, lengths {lens})"
+    return None
+
+
+def history_oracle(c, o):
+    if isinstance(o, (Err, Abort)):
+        return ("pdo_map_unavailable", f"the maps of the history cannot be used: {o!r}")
+    odd = dict(c["od"])
+    keys = c["keys"]
+    sim = [{(i, s): v for i, s, v in nd["regs"]} for nd in c["nodes"]]     # the oracle's own register files
+    known = [dict(u=None, mapping=None) for _ in keys]                      # what each map object should hold
+    # callbacks that are not PDO maps (SDO, heartbeat, EMCY, NMT, LSS): whatever is there must stay
+    prev_table = [[] for _ in keys] + [o[0][4][-1] if o else 0]
+    for pos, (op, ob) in enumerate(zip(c["ops"], o)):
+        res, second, cfgobs, layout, tab = ob
+        what = f"operation {pos} {op[:2] if op[0] != 'reset' else 'reset'} of {[x[0] for x in c['ops']]}"
+        kind = op[0]
+        touched = None if kind == "reset" else op[1]
+        # ---- the subscription table of the whole network
+        if tab[-1] != prev_table[-1]:
+            return ("foreign_subscription_changed", f"{what}: {prev_table[-1]} -> {tab[-1]} callbacks that are not PDO maps")
+        for ki in range(len(keys)):
+            if ki != touched and tab[ki] != prev_table[ki]:
+                return ("subscription_of_other_map_changed",
+                        f"{what}: map {keys[ki]} was subscribed to {prev_table[ki]}, now {tab[ki]}")
+        if touched is not None:
+            new = set(tab[touched]) - set(prev_table[touched])
+            ok_new = set()
+            if kind in ("save", "read") and res is None and cfgobs[1] and cfgobs[0] is not None:
+                ok_new = {cfgobs[0]}
+                if cfgobs[0] not in tab[touched]:
+                    return ("enabled_map_not_subscribed", f"{what}: enabled map {keys[touched]} COB-ID {cfgobs[0]:#x}, subscribed {tab[touched]}")
+            if new - ok_new:
+                return ("unexpected_subscription", f"{what}: map {keys[touched]} newly subscribed to {sorted(new)}, attributes {cfgobs[:2]}")
+        prev_table = tab
+        if kind == "reset":
+            sim[op[1]] = {(i, s): v for i, s, v in op[2]}
+            continue
+        ni, tp, n = keys[touched]
+        com, mp = com_map_index(tp, n)
+        # ---- layout of the map object
+        f = layout_failure(cfgobs, layout, what)
+        if f:
+            return ("map_layout_inconsistent_after_failure", f)
+        k = known[touched]
+        if kind == "set":
+            k["u"] = dict(op[2])
+            continue
+        if kind == "map":
+            k["mapping"] = [(i, s, od_bits(odd, i, s) if l is None else l) for i, s, l in op[2] if od_bits(odd, i, s) is not None]
+            continue
+        pc = dict(tpdo=tp, n=n, od=odd, dev=c["dev"], regs=[[i, s, v] for (i, s), v in sim[ni].items()])
+        if kind == "save":
+            before = dict(sim[ni])
+            for i, s, v, a in second:
+                if a is None:
+                    sim[ni][(i, s)] = v
+            if op[2] == 0 and k["u"] is not None and k["mapping"] is not None:
+                # no fault injected: every call of save() does the whole job, whatever happened before
+                regs = [sim[ni].get((com, x)) for x in (1, 2, 3, 5, 6)] + [sim[ni].get((mp, x)) for x in range(9)]
+                sres = res if isinstance(res, (Err, Abort)) else [None] * 9
+                f = expect_after_save(pc, k["u"], k["mapping"], [sres, second, regs, None], "history_")
+                if f:
+                    return (f[0], f"{what}: {f[1]}")
+            if any(i == mp and s == 0 and v == 0 and a is not None for i, s, v, a in second):
+                k["mapping"] = None       # count := 0 refused: the fixed-count workaround may have filled the map
+            continue
+        if kind == "read":
+            d = decode_source(pc, lambda i, s: sim[ni].get((i, s))) if (op[2], op[3]) == (0, 0) else None
+            if d is not None:
+                # timers: read only for 254/255, otherwise the object keeps what it had
+                want_u, want_map = d
+                if isinstance(res, (Err, Abort)):
+                    return ("history_read_failed", f"{what}: read() raised {res!r}")
+                got = cfgobs[:4] + [cfgobs[7]]
+                exp = [want_u["cob"], want_u["enabled"], want_u["rtr"], want_u["tt"], [list(e) for e in want_map]]
+                if got != exp:
+                    return ("history_read_wrong", f"{what}: read gives {got}, CiA 301 decoding is {exp}")
+                if want_u["tt"] >= 254 and cfgobs[4:7] != [want_u["inhibit"], want_u["event"], want_u["sync"]]:
+                    # a timer register that exists must be read; a missing one keeps the old value (not checked)
+                    for x, key in zip(cfgobs[4:7], ("inhibit", "event", "sync")):
+                        if want_u[key] is not None and x != want_u[key]:
+                            return ("history_read_wrong", f"{what}: {key} read as {x}, register holds {want_u[key]}")
+            if res is None:
+                k["u"] = dict(cob=cfgobs[0], enabled=cfgobs[1], rtr=cfgobs[2], tt=cfgobs[3], inhibit=cfgobs[4],
+                              event=cfgobs[5], sync=cfgobs[6]) if d is not None else None
+                k["mapping"] = [tuple(e) for e in cfgobs[7]] if d is not None else None
+            else:
+                k["u"], k["mapping"] = None, None
+    return None
+
+
 def oracle(c, o):
     k = c["kind"]
+    if k == "history":
+        return history_oracle(c, o)
     if k == "indices":
         com, mp = com_map_index(c["tpdo"], c["n"])
         if isinstance(o, (Err, Abort)) or o[:2] != [com, mp]:
@@ -469,7 +650,7 @@ def g_cfg(u):
 
 def coq_case(c):
     k = c["kind"]
-    head = f"{gbool(c.get('tpdo', 0))} {gz(c['n'])}"
+    head = f"{gbool(c.get('tpdo', 0))} {gz(c.get('n', 0))}"
     if k == "save_read":
         adds = glist([g3(a, gopt) for a in c["adds"]])
         return f"CSaveRead {head} {g_od(c['od'])} {g_dev(c['dev'])} {g_regs(c['regs'])} {g_cfg(c['cfg'])} {adds}"
@@ -480,6 +661,18 @@ def coq_case(c):
         return f"CFromOd {head} {g_od(c['od'])} {vals} {g_dev(c['dev'])} {g_regs(c['regs'])}"
     if k == "indices":
         return f"CIndices {head} {gz(c['node_id'])}"
+    if k == "history":
+        gk = lambda key: f"({gz(key[0])}, {gbool(key[1])}, {gz(key[2])})"
+        ops = []
+        for op in c["ops"]:
+            if op[0] == "set": ops.append(f"HSet {gk(c['keys'][op[1]])} {g_cfg(op[2])}")
+            elif op[0] == "map": ops.append(f"HMap {gk(c['keys'][op[1]])} {glist([g3(a, gopt) for a in op[2]])}")
+            elif op[0] == "save": ops.append(f"HSave {gk(c['keys'][op[1]])} {gz(op[2])}")
+            elif op[0] == "read": ops.append(f"HRead {gk(c['keys'][op[1]])} {gz(op[2])} {gz(op[3])}")
+            elif op[0] == "reset": ops.append(f"HReset {gz(op[1])} {g_regs(op[2])}")
+            else: raise ValueError(op[0])
+        return (f"CHistory {g_od(c['od'])} {g_dev(c['dev'])} {glist([gk(k) for k in c['keys']])} "
+                f"{glist([g_regs(nd['regs']) for nd in c['nodes']])} {glist(ops)}")
     if k == "load":
         vals = glist([f"(({gz(i)}, {gz(s)}), ({gopt(v)}, {gopt(d)}))" for i, s, v, d in c["vals"]])
         return f"CLoad {gz(c['n'])} {g_od(c['od'])} {vals} {g_dev(c['dev'])} {g_regs(c['regs'])}"
@@ -488,6 +681,8 @@ def coq_case(c):
 
 def nontrivial(c):
     k = c["kind"]
+    if k == "history":
+        return any(op[0] in ("save", "read") for op in c["ops"])
     if k == "load":
         return any(s == 0 and (v or d) and 0x1600 <= i < 0x1C00 for i, s, v, d in c["vals"])
     com, mp = com_map_index(c["tpdo"], c["n"])
@@ -719,6 +914,126 @@ def gen_from_od(rng, kind="from_od"):
     return c
 
 
+def gen_history(rng, tier="quick"):
+    """operation histories on one Network: retries after a failed save, saves around a device reset, unchanged /
+    changed mappings saved repeatedly, several maps and nodes with colliding COB-IDs that are re-addressed,
+    reads that fail midway over a map that held another mapping"""
+    numbers = rng.choice([[1], [1, 2], [2], [512], [1, 512]])
+    odd = dict(com=rng.choice([[1, 2, 3, 5, 6]] * 4 + [[1, 2], [1, 2, 3]]), nmap=8, objs=list(OBJ_POOL), numbers=numbers)
+    dobjs = flat_objs(odd["objs"])
+    mode = rng.choice([0] * 8 + [1, 2])
+    nn = rng.choice([1, 2, 2, 3])
+    ids = rng.sample(range(1, 100), nn)
+    c = dict(kind="history", od=odd, dev=dict(objs=dobjs, mode=mode))
+
+    def prior(i):
+        pc = dict(tpdo=0, n=numbers[0])
+        return gen_regs(rng, pc, odd, dobjs, others=numbers[1:], both=True)
+    c["nodes"] = [dict(id=ids[i], regs=prior(i)) for i in range(nn)]
+    allkeys = [[ni, tp, n] for ni in range(nn) for tp in (0, 1) for n in numbers]
+    rng.shuffle(allkeys)
+    keys = allkeys[:rng.choice([1, 2, 2, 3, 3, 4])]
+    c["keys"] = keys
+
+    def attrs(cob=None, enabled=None):
+        u = dict(cob=gen_cob(rng) if cob is None else cob, enabled=(rng.random() < 0.75) if enabled is None else enabled,
+                 rtr=rng.random() < 0.5, tt=rng.choice([0, 1, 253, 254, 255, rng.randrange(256)]),
+                 inhibit=None, event=None, sync=None)
+        for key, sub, lim in (("inhibit", 3, 65536), ("event", 5, 65536), ("sync", 6, 256)):
+            if sub in odd["com"] and rng.random() < 0.4:
+                u[key] = rng.randrange(lim)
+        return u
+
+    def mapping(maxbits=64):
+        adds, total = [], 0
+        for _ in range(rng.choice([0, 1, 1, 2, 2, 3, 4, 6, 8])):
+            i, s, b = rng.choice(dobjs)
+            l = rng.choice([b, b, None, rng.randint(1, b)])
+            ll = b if l is None else l
+            if total + ll > maxbits:
+                continue
+            total += ll
+            adds.append([i, s, l])
+        return adds
+
+    def nwrites(u, adds):
+        return 1 + sum(u[k] is not None for k in ("tt", "inhibit", "event", "sync")) + 2 + len(adds) + (1 if u["enabled"] else 0)
+
+    ops = []
+    shape = rng.choice(["retry", "retry", "reset", "twice", "collide", "collide", "readfail", "readfail", "random"])
+    if shape in ("retry", "reset", "twice"):
+        k = rng.randrange(len(keys))
+        u, adds = attrs(), mapping()
+        if shape == "retry" and not adds and rng.random() < 0.8:
+            adds = [[0x2001, 0, None], [0x2000, 0, None]]
+        ops += [["set", k, u], ["map", k, adds]]
+        if shape == "retry":
+            ops.append(["save", k, rng.randint(1, nwrites(u, adds))])
+            if rng.random() < 0.3:
+                ops.append(["save", k, rng.randint(1, nwrites(u, adds))])
+            if rng.random() < 0.3:
+                ops.append(["reset", keys[k][0], prior(0)])
+            ops.append(["save", k, 0])
+        elif shape == "reset":
+            ops += [["save", k, 0], ["reset", keys[k][0], prior(0)], ["save", k, 0]]
+        else:
+            ops += [["save", k, 0], ["save", k, 0]]
+            if rng.random() < 0.5:
+                ops += [["map", k, mapping()], ["save", k, 0]]
+        if rng.random() < 0.5:
+            ops.append(["read", k, 0, 0])
+    elif shape == "collide":
+        cob = rng.choice([gen_cob(rng), 0x580 + ids[0], 0x700 + ids[0], 0x80 + ids[-1], 0x182, 0])
+        for k in range(len(keys)):
+            ops += [["set", k, attrs(cob if rng.random() < 0.8 else None, True if rng.random() < 0.8 else None)],
+                    ["map", k, mapping()], [rng.choice(["save", "save", "read"]), k, 0, 0][:3 if rng.random() < 2 else 4]]
+            if ops[-1][0] == "read":
+                ops[-1] = ["read", k, 0, 0]
+        for _ in range(rng.randint(1, 3)):
+            k = rng.randrange(len(keys))
+            r = rng.random()
+            if r < 0.6:
+                ops += [["set", k, attrs(rng.choice([gen_cob(rng), cob]), None)], ["save", k, 0]]
+            elif r < 0.8:
+                ops += [["reset", keys[k][0], prior(0)], ["read", k, 0, 0]]
+            else:
+                ops += [["read", k, 0, 0]]
+    elif shape == "readfail":
+        k = rng.randrange(len(keys))
+        ni, tp, n = keys[k]
+        com, mp = com_map_index(tp, n)
+        # the object holds a mapping; the device holds another one of a different size
+        ops += [["set", k, attrs()], ["map", k, mapping() or [[0x2002, 0, None]]]]
+        words, total = [], 0
+        for _ in range(rng.randint(1, 4)):
+            i, s, b = rng.choice(dobjs)
+            if total + b <= 64:
+                total += b
+                words.append(i << 16 | s << 8 | b)
+        regs = [r for r in c["nodes"][ni]["regs"] if not (r[0] == mp)]
+        regs += [[mp, 0, len(words)]] + [[mp, j + 1, (words[j] if j < len(words) else 0)] for j in range(8)]
+        c["nodes"][ni]["regs"] = regs
+        fail = rng.choice([(mp, rng.randint(1, len(words))), (mp, len(words)), (mp, 0), (com, 2), (com, 1), (com, 3)])
+        ops.append(["read", k, fail[0], fail[1]])
+        r = rng.random()
+        if r < 0.4: ops.append(["read", k, 0, 0])
+        elif r < 0.7: ops.append(["save", k, 0])
+        elif r < 0.85: ops += [["map", k, mapping()], ["save", k, rng.choice([0, 0, 3])]]
+    else:
+        for _ in range(rng.randint(3, 9)):
+            k = rng.randrange(len(keys))
+            ni, tp, n = keys[k]
+            com, mp = com_map_index(tp, n)
+            r = rng.random()
+            if r < 0.2: ops.append(["set", k, attrs()])
+            elif r < 0.4: ops.append(["map", k, mapping(rng.choice([64, 64, 100]))])
+            elif r < 0.65: ops.append(["save", k, rng.choice([0, 0, 0, rng.randint(1, 12)])])
+            elif r < 0.85: ops.append(["read", k] + rng.choice([[0, 0], [0, 0], [mp, rng.randint(0, 3)], [com, rng.randint(1, 6)]]))
+            else: ops.append(["reset", ni, prior(0)])
+    c["ops"] = ops
+    return c
+
+
 def gen_cases(rng, tier):
     nsr, nvalid, nrd, nod, nld = {"quick": (350, 350, 180, 170, 90), "thorough": (5000, 4000, 2000, 2000, 1000),
                                   "search": (1000, 1500, 400, 400, 200)}[tier]
@@ -736,6 +1051,8 @@ def gen_cases(rng, tier):
         cases.append(gen_from_od(rng))
     for _ in range(nld):
         cases.append(gen_from_od(rng, "load"))
+    for _ in range({"quick": 160, "thorough": 2500, "search": 600}[tier]):
+        cases.append(gen_history(rng, tier))
     return cases
 
 
@@ -751,6 +1068,20 @@ def neighbours(c, rng):
 
 def shrink(c):
     k = c["kind"]
+    if k == "history":
+        ops = c["ops"]
+        for i in range(len(ops)):
+            yield dict(c, ops=ops[:i] + ops[i + 1:])
+        for i, op in enumerate(ops):
+            if op[0] == "map" and op[2]:
+                for j in range(len(op[2])):
+                    yield dict(c, ops=ops[:i] + [["map", op[1], op[2][:j] + op[2][j + 1:]]] + ops[i + 1:])
+            if op[0] == "set":
+                u = op[2]
+                for key in ("inhibit", "event", "sync"):
+                    if u[key] is not None:
+                        yield dict(c, ops=ops[:i] + [["set", op[1], dict(u, **{key: None})]] + ops[i + 1:])
+        return
     if k == "save_read":
         for i in range(len(c["adds"])):
             yield dict(c, adds=c["adds"][:i] + c["adds"][i + 1:])
